@@ -23,6 +23,7 @@ import NR.Front
 import NR.LatestEst
 import NR.Init
 import NR.Closest
+import NR.Units
 namespace NR.Driver
 open NR
 
@@ -188,6 +189,22 @@ def stepClosest (ws : List String) : String :=
     match n.toNat?, self.toNat?, pairs with
     | some n, some self, some ps => "closest " ++ Closest.render (Closest.nearest n self ps)
     | _, _, _ => "bad-op"
+  | _ => "bad-op"
+
+/-- `units <a:b,…>`: the factory's grouping of precedence relations into plan units (NR.Units.run), relations in the
+order the factory processes them. -/
+def stepUnits (ws : List String) : String :=
+  match ws with
+  | [rs] =>
+    let pairs : Option (List (Nat × Nat)) :=
+      allSome ((parseCsv rs).map (fun x => match x.splitOn ":" with
+        | [a, b] => (match a.toNat?, b.toNat? with
+          | some a, some b => some (a, b)
+          | _, _ => none)
+        | _ => none))
+    match pairs with
+    | some ps => "units " ++ Units.render (Units.run ps)
+    | none => "bad-op"
   | _ => "bad-op"
 
 def sortNats (l : List Nat) : List Nat := (l.toArray.qsort (· < ·)).toList
@@ -587,6 +604,7 @@ def step (st : State) (line : String) : State × String :=
   | "gen" :: ws => (st, stepGen ws)
   | "gend" :: ws => (st, stepGenD ws)
   | "closest" :: ws => (st, stepClosest ws)
+  | "units" :: ws => (st, stepUnits ws)
   | "par" :: ws => (st, stepPar ws)
   | "fmt" :: ws => (st, stepFmt ws)
   | "td" :: ws => let (t, o) := stepTd st.td ws; ({ st with td := t }, o)
